@@ -239,6 +239,7 @@ def run(fx, tier):
                     key='C13:R-OWN:mqtt_ctx-copy:state', where=f.file)
     if n_cc == 0:
         raise AnalysisBroken('mqtt_ctx copy constructor not found')
+    session_flags_rule(fx, v, 'C13')
     v.expect_min('R-PAIR', 15, 'update_session_state paths × TUs')
     v.expect_min('R-DOM', 8, 'notifications × TUs')
     v.expect_min('R-OWN', 30, 'flag writers')
@@ -246,3 +247,55 @@ def run(fx, tier):
         'The report-once mechanism is a two-flag protocol; decided structurally: the only edge that stores session_expired, '
         'the flag resets paired with it on the same path, the writers of both flags and where their values come from, and '
         'that both reconnect notifications run it before resending. Sequences of reconnects are not enumerated.')
+
+
+def session_flags_rule(fx, v, prop='C13'):
+    """shared with C04 (a resumed session must not be taken for a lost one: pending PUBRELs would be dropped)"""
+    # the two flags are independent bits of one byte: the extracted accessors of session_state are folded over all four
+    # flag states (a getter that compares the whole byte instead of masking one bit reports "session lost" for every
+    # client that has subscribed)
+    from pyfn import compile_fn, NotCompilable
+    fns = {}
+    for f in fx.fns:
+        if f.cls == 'session_state' and not f.lam and not f.d.get('ctor') and f.tu == fx.tus[0]:
+            fns[(f.n, len(f.params))] = f
+    need = [('session_present', 0), ('session_present', 1), ('subscriptions_present', 0), ('subscriptions_present', 1), ('update_flag', 2)]
+    if any(k not in fns for k in need):
+        raise AnalysisBroken('session_state accessors not found: %s' % sorted(fns))
+    try:
+        upd = compile_fn(fns[('update_flag', 2)], {}, with_this=True)
+        hooks = {'update_flag': lambda this, a, b: upd(this, a, b)}
+        get_sp = compile_fn(fns[('session_present', 0)], hooks, with_this=True)
+        get_sub = compile_fn(fns[('subscriptions_present', 0)], hooks, with_this=True)
+        set_sp = compile_fn(fns[('session_present', 1)], hooks, with_this=True)
+        set_sub = compile_fn(fns[('subscriptions_present', 1)], hooks, with_this=True)
+    except NotCompilable as ex:
+        raise AnalysisBroken('session_state accessors outside the evaluable fragment: %s' % ex)
+    bad = None
+    for fl in range(4):
+        sp0, sub0 = bool(fl & 1), bool(fl & 2)          # bit assignment is checked by R-OWN 'distinct bits'; here: independence
+        st = {'_flags': fl}
+        g1, g2 = bool(get_sp(st)), bool(get_sub(st))
+        # find which bit is which from the setters on a zero state
+        z = {'_flags': 0}; set_sp(z, 1); bit_sp = z['_flags']
+        z = {'_flags': 0}; set_sub(z, 1); bit_sub = z['_flags']
+        if bit_sp == bit_sub or bit_sp not in (1, 2, 4, 8, 16, 32, 64, 128) or bit_sub not in (1, 2, 4, 8, 16, 32, 64, 128):
+            bad = 'setters use bits %s / %s' % (bit_sp, bit_sub)
+            break
+    if bad is None:
+        for a in (0, 1):
+            for b_ in (0, 1):
+                st = {'_flags': 0}
+                set_sp(st, a); set_sub(st, b_)
+                if (bool(get_sp(st)), bool(get_sub(st))) != (bool(a), bool(b_)):
+                    bad = 'after session_present(%d), subscriptions_present(%d) the getters report (%s, %s)' % (a, b_, bool(get_sp(st)), bool(get_sub(st)))
+                for a2 in (0, 1):
+                    st2 = dict(st); set_sp(st2, a2)
+                    if bool(get_sub(st2)) != bool(b_) or bool(get_sp(st2)) != bool(a2):
+                        bad = bad or 'changing session_present disturbs subscriptions_present (or is not reported)'
+                for b2 in (0, 1):
+                    st2 = dict(st); set_sub(st2, b2)
+                    if bool(get_sp(st2)) != bool(a) or bool(get_sub(st2)) != bool(b2):
+                        bad = bad or 'changing subscriptions_present disturbs session_present (or is not reported)'
+    v.check(bad is None, 'R-OWN', 'session_state accessors', 'setters and getters of the two flags are independent of each other in all four states'
+            if bad is None else bad, key=prop + ':R-OWN:session_state:accessors', where=fns[('session_present', 0)].file)
